@@ -13,7 +13,8 @@ REDUCE_KEYS = ["pdb"]
 LEVEL = "exploration"
 RULE = ("structures with 2-4 chains (upper/lower-case, digit and blank ids, TER present or absent between chains, "
         "hetero groups carrying the id of a protein chain or their own, hetero records first or last, optional second "
-        "MODEL) x every kind of non-empty subset of the chain ids (-c repeated, blank passed as ' '). Non-trivial: the "
+        "MODEL) x every kind of non-empty subset of the chain ids (-c repeated, blank passed as ' '); command-line "
+        "invocations over 2-3 files with one selection. Non-trivial: the "
         "subset is a proper subset, the kept part has >= 1 reported group with a determinant, and a removed chain "
         "precedes a kept chain in the file or interacts with it; distinct by hash of (input, subset).")
 ASSUMPTIONS = ["the selected subset is compared bit-exactly: both runs execute the same code on the same atoms"]
@@ -77,7 +78,69 @@ def check_case(case):
     return v, {"nontrivial": proper and stats["with_dets"] >= 1, "labels": labels}
 
 
+def invocation_case(case):
+    """One command-line invocation (propka.run.main) over several files with -c: every written file must be the
+    file written for the input from which the other chains were deleted."""
+    import logging
+    import os
+    import propka.run
+    subset = case["subset"]
+    opt = []
+    for c in subset:
+        opt += ["-c", c]
+    names = []
+    for n, text in enumerate(case["pdbs"]):
+        with open("inv%d.pdb" % n, "w") as fh:
+            fh.write(text)
+        names.append("inv%d.pdb" % n)
+    args = opt[:]
+    for fn in names[:-1]:
+        args += ["-f", fn]
+    args.append(names[-1])
+    root = logging.getLogger("")
+    before = list(root.handlers)
+    err = None
+    try:
+        propka.run.main([args])
+    except BaseException as e:
+        if isinstance(e, KeyboardInterrupt):
+            raise
+        err = "%s: %s" % (type(e).__name__, e)
+    finally:
+        for h in list(root.handlers):
+            if h not in before:
+                root.removeHandler(h)
+    v = []
+    nontrivial = False
+    for n, text in enumerate(case["pdbs"]):
+        want = observe.run(filtered(text, subset), [], name="ref%d" % n)
+        fn = "inv%d.pka" % n
+        got = None
+        if os.path.exists(fn):
+            got = open(fn).read().split("\n", 1)[1]
+            os.remove(fn)
+        os.remove("inv%d.pdb" % n)
+        if want["error"]:
+            continue          # (an input without atoms of the selected chains stops the invocation)
+        if err and got is None:
+            if not any(observe.run(filtered(t, subset), [], name="x")["error"] for t in case["pdbs"][:n + 1]):
+                v.append({"clause": "invocation-runs", "detail": "file %d of %d: %s" % (n + 1, len(names), err)})
+            break
+        if got != want["pka_text"]:
+            la, lb = (got or "").splitlines(), want["pka_text"].splitlines()
+            i = next((i for i, (x, y) in enumerate(zip(la, lb)) if x != y), min(len(la), len(lb)))
+            v.append({"clause": "chain-selection==deletion/invocation", "detail": "file %d of %d in one invocation "
+                      "with -c %s: line %d: %r vs %r" % (n + 1, len(names), ",".join(subset), i, la[i:i + 1],
+                                                         lb[i:i + 1])})
+            break
+        if n and any(c not in subset for c in chain_ids(pdbio.parse(text))):
+            nontrivial = True
+    return v, {"labels": ["invocation:%d-files" % len(names)], "nontrivial": nontrivial}
+
+
 def replay(case):
+    if case.get("kind") == "invocation":
+        return invocation_case(case)[0]
     return check_case(case)[0]
 
 
@@ -130,3 +193,29 @@ def run_shard(ctx):
         ctx.account(case, v, info)
 
     ctx.hypothesis_stage("chain-subsets", cases(), body, 2500 if quick else 40000)
+
+    @st.composite
+    def invocations(draw):
+        first = draw(gen.structures(max_res=24 if quick else 50, multi_chain=True, distinct_chain_ids=True))
+        ids = chain_ids(pdbio.parse(first.text))
+        k = draw(st.integers(1, max(1, len(ids) - 1)))
+        subset = list(draw(st.permutations(ids))[:k])
+        pdbs = [first.text]
+        for _ in range(draw(st.integers(1, 2))):
+            if draw(st.booleans()):
+                pdbs.append(first.text)
+            else:
+                other = draw(gen.structures(max_res=24 if quick else 50, multi_chain=True, distinct_chain_ids=True))
+                pdbs.append(other.text)
+        if draw(st.integers(0, 4)) == 0:
+            subset.append("q")             # a chain that occurs in none of the files
+        return first, pdbs, subset
+
+    def inv_body(t):
+        first, pdbs, subset = t
+        case = {"kind": "invocation", "pdbs": pdbs, "subset": subset}
+        v, info = invocation_case(case)
+        info["sample"] = {"first_structure": first.summary(), "files": len(pdbs), "selected": subset}
+        ctx.account(case, v, info)
+
+    ctx.hypothesis_stage("one-invocation-several-files", invocations(), inv_body, 300 if quick else 4000)
